@@ -321,3 +321,76 @@ def finish(prop, tier, seed, t0, build, findings, coverage, assumptions, broken=
           'assumptions': list(assumptions), 'wall_s': round(time.time() - t0, 2), 'violations': violations}
     write_json(os.path.join(VERIF, 'evidence', '%s.json' % prop), ev)
     return 1 if violations else 0
+
+
+# ------------------------------------------------------------------ watchdog pool (for code that cannot be interrupted)
+
+def _wd_worker(fn, inq, outq):
+    while True:
+        item = inq.get()
+        if item is None:
+            return
+        i, case = item
+        outq.put(('start', i, os.getpid()))
+        try:
+            r = fn(case)
+        except Exception:
+            import traceback
+            r = 'harness raised: ' + traceback.format_exc()[-300:]
+        outq.put(('done', i, r))
+
+
+def run_with_watchdog(fn, cases, limit_s, procs=None):
+    """fn(case) -> result, in worker processes; a case that runs longer than limit_s wall seconds gets the result
+    ('TIMEOUT', limit_s) and its worker is killed (regular-expression matching ignores signals)"""
+    import multiprocessing as mp
+    import queue as _q
+    ctx = mp.get_context('fork')
+    procs = procs or NPROC
+    inq, outq = ctx.Queue(), ctx.Queue()
+    for item in enumerate(cases):
+        inq.put(item)
+    workers = {}
+
+    def spawn():
+        p = ctx.Process(target=_wd_worker, args=(fn, inq, outq))
+        p.daemon = True
+        p.start()
+        workers[p.pid] = p
+    for _ in range(procs):
+        spawn()
+    results = [None] * len(cases)
+    running = {}          # pid -> (index, start time)
+    done = 0
+    while done < len(cases):
+        try:
+            msg = outq.get(timeout=0.5)
+            if msg[0] == 'start':
+                running[msg[2]] = (msg[1], time.time())
+            else:
+                results[msg[1]] = msg[2]
+                done += 1
+                for pid, (i, _) in list(running.items()):
+                    if i == msg[1]:
+                        del running[pid]
+        except _q.Empty:
+            pass
+        now = time.time()
+        for pid, (i, t0) in list(running.items()):
+            if now - t0 > limit_s:
+                p = workers.pop(pid, None)
+                if p is not None:
+                    p.kill()
+                    p.join()
+                del running[pid]
+                if results[i] is None:
+                    results[i] = ('TIMEOUT', limit_s)
+                    done += 1
+                spawn()
+    for _ in workers:
+        inq.put(None)
+    for p in workers.values():
+        p.join(timeout=2)
+        if p.is_alive():
+            p.kill()
+    return results
